@@ -14,6 +14,10 @@ CONSTANTS
   StopKA = FALSE
   CloseAtomic = TRUE
   KeepSink = FALSE
+  FailSet = {0}
+  MaxReq = 1000000
+  SharedBuf = FALSE
+  MmEncodeInAdd = FALSE
   AllowSkip = TRUE
 CONSTRAINT HighWater
 INVARIANT TypeOK
